@@ -236,6 +236,13 @@ def StackArgLenIsWord (d : ArchDesc) (a : AbiSpec) : Prop :=
 
 def StackArgOffsetAbi (d : ArchDesc) (a : AbiSpec) : Prop := d.stackArgOffset = a.stackArgOffset
 
+/-- every clause of the property for one architecture; the argument clause in the form that holds for all
+    seven (`ArgsIntThenFp`, which IS `ArgsInAbiOrder` wherever the ABI table has no SIMD sequence) -/
+def Holds (d : ArchDesc) (a : AbiSpec) : Prop :=
+  SpEmitted d ∧ SpAbi d a ∧ WordSizeAgrees d a ∧ EndianAgrees d a ∧ CcRegsEmitted d ∧
+  PreservedTrashedDisjoint d ∧ SpPreserved d ∧ ArgsIntThenFp d a ∧ ReturnRegAbi d a ∧ ReturnAddrAbi d a ∧
+  StackArgLenIsWord d a ∧ StackArgOffsetAbi d a
+
 instance (d : ArchDesc) : Decidable (SpEmitted d) := inferInstanceAs (Decidable (_ ∧ _))
 instance (d : ArchDesc) (a : AbiSpec) : Decidable (WordSizeAgrees d a) := inferInstanceAs (Decidable (_ ∧ _))
 instance (d : ArchDesc) (a : AbiSpec) : Decidable (EndianAgrees d a) := inferInstanceAs (Decidable (_ ∧ _))
